@@ -181,7 +181,9 @@ where
 
         let attribute_header = if self.is_attribute { ", attribute = true" } else { "" };
 
-        if let Some(tns) = &self.target_namespace {
+        // attributes are unqualified (attributeFormDefault is "unqualified" unless a schema says otherwise): they
+        // carry no prefix
+        if let Some(tns) = self.target_namespace.as_ref().filter(|_| !self.is_attribute) {
             writeln!(
                 writer,
                 "    #[yaserde(prefix = \"{}\", rename = \"{}\"{attribute_header})]",
